@@ -2,6 +2,7 @@ package props
 
 import (
 	"fmt"
+	"math"
 	"reflect"
 	"strings"
 
@@ -76,6 +77,9 @@ func c08Vals(d ref.DT, n int, vs string) []interface{} {
 			v[i] = d.Code((i*7)%11 + 1)
 		case "ties": // ties and negatives; the extreme occurs several times
 			v[i] = d.Code([]int{2, -3, 5, 5, -3, 0, 5, -3, 1}[i%9])
+		case "inf": // float only: the infinities occur several times, first at the very first position
+			e := []float64{math.Inf(1), 1, math.Inf(1), math.Inf(-1), 2, math.Inf(-1), 3}
+			v[i] = reflect.ValueOf(e[i%len(e)]).Convert(d.D.Type).Interface()
 		case "overflow":
 			e := edgeVals(d)
 			v[i] = e[i%2] // min,max alternating (ints); for floats +-Inf
@@ -121,8 +125,11 @@ func runC08(r *core.Run) {
 					axesSets = append(axesSets, []int{2, 0})
 				}
 			}
-			for _, vs := range []string{"id", "ties", "overflow"} {
+			for _, vs := range []string{"id", "ties", "overflow", "inf"} {
 				if d.Class == ref.CComplex && vs != "id" {
+					continue
+				}
+				if vs == "inf" && (!d.IsFloat() || len(shape) > 2) {
 					continue
 				}
 				if d.Class == ref.CUint && vs == "ties" {
